@@ -18,7 +18,7 @@ theorem getElem?_pre {α} (pre xs : List α) (j : Nat) : (pre ++ xs)[pre.length 
 theorem wrapDepth_le_height : ∀ (t : Ty), Ty.wrapDepth t ≤ t.height
   | .opt t => by have := wrapDepth_le_height t; simp [Ty.wrapDepth, Ty.height]; omega
   | .prop t => by have := wrapDepth_le_height t; simp [Ty.wrapDepth, Ty.height]; omega
-  | .bool | .i64 | .u64 | .i32 | .u32 | .i16 | .u16 | .i8 | .u8 | .f64 | .f32 | .str | .any | .ign | .seq _ | .map _ | .st _ | .en _ => by
+  | .bool | .i64 | .u64 | .i32 | .u32 | .i16 | .u16 | .i8 | .u8 | .f64 | .f32 | .str | .any | .ign | .seq _ | .map _ | .st _ | .en _ | .tup _ => by
       simp [Ty.wrapDepth]
 
 theorem valueOfN_leaf_scalar (enc : Enc) : ∀ (t : Ty), Ty.isScalarTy t = true → ∀ (f : Nat), Ty.wrapDepth t < f →
